@@ -68,6 +68,9 @@ async fn run_command(
     cmd.args(program_args);
     cmd.stdout(std::process::Stdio::piped());
     cmd.stderr(std::process::Stdio::piped());
+    // A tool call that times out drops this future: the command must not keep running in the
+    // workspace after the call has been reported as failed and the workspace lock released.
+    cmd.kill_on_drop(true);
 
     if let Some(cwd) = args.cwd.as_deref() {
         match resolve_path(&config.workspace_root, cwd) {
